@@ -83,8 +83,15 @@ UNIVERSES = {
                  Updates=[dict(add=[2], rw=2), dict(add=[110], rw=1)]),
     # filter headers trail block headers
     "lag": dict(FORK, InitChain=[0, 1, 2], InitFH=1, Lag=True),
-    # empty watch list at the start
-    "nowatch": dict(FORK, InitWatch=[], Updates=[dict(add=[1, 4], rw=1)]),
+    # empty watch list at the start (nothing to scan for until an update adds
+    # items); a chain event and its notification are two steps, so a subscription
+    # registered in between gets the block in its backlog and again live
+    "nowatch": dict(FORK, InitWatch=[], Updates=[dict(add=[1, 4], rw=1)], Split=True),
+    # the whole tree lies BEFORE the start time: the rescan never scans
+    # (scanning = false) although it watches addresses
+    "early": dict(FORK, StartT=9, Split=True),
+    # the tip universe with split notifications
+    "tipsplit": dict(FORK, InitChain=[0, 1, 2, 3], InitFH=3, StartB=2, InitWatch=[1, 4, 101], Split=True),
     # a longer main branch 1-2-3-4 with a fork after 2 (5 = 3', 6 = 4'): several
     # blocks can wait in the retry queue while the chain reorganises under them
     "retry": dict(Parent=[-1, 0, 1, 2, 3, 2, 5],
@@ -113,6 +120,7 @@ UNIVERSES = {
                 Updates=[dict(add=[2], rw=2), dict(add=[2], rw=0), dict(add=[150], rw=1)]),
 }
 UNIVERSES["biglag"] = dict(UNIVERSES["big"], InitFH=2, Lag=True)
+UNIVERSES["big"] = dict(UNIVERSES["big"], Split=True)
 
 
 def _heights(parent):
@@ -125,6 +133,7 @@ def _heights(parent):
 def universe(name):
     u = dict(UNIVERSES[name])
     u.setdefault("Lag", False)
+    u.setdefault("Split", False)
     u["NB"] = len(u["Parent"])
     u["NT"] = len(u["TxOuts"])
     u["Height"] = _heights(u["Parent"])
@@ -190,7 +199,7 @@ def write_universe(u, d):
 
 # ---------------------------------------------------------------------------
 BASE = dict(MaxExt=2, MaxRb=1, MaxFail=1, MaxUpd=1, MaxNotCur=0, Lag=False, StaleFilterOK=False,
-            WithQuit=False)
+            WithQuit=False, SplitNotify=False)
 
 SCENARIOS = {
     "quick": [
@@ -199,13 +208,17 @@ SCENARIOS = {
         ("lag", dict(MaxExt=2, MaxRb=1, MaxUpd=0, Lag=True, MaxNotCur=1)),
         ("retry", dict(MaxExt=3, MaxRb=2, MaxFail=2, MaxUpd=0)),
         ("deep", dict(MaxExt=4, MaxRb=3, MaxFail=1, MaxUpd=1, StaleFilterOK=True)),
+        ("nowatch", dict(MaxExt=3, MaxRb=2, MaxFail=0, MaxUpd=0)),
+        ("early", dict(MaxExt=3, MaxRb=2, MaxFail=0, MaxUpd=0)),
     ],
     "thorough": [
         ("fork", dict(MaxExt=3, MaxRb=3, MaxFail=2, StaleFilterOK=True, WithQuit=True, MaxNotCur=1)),
         ("tip", dict(MaxExt=3, MaxRb=3, MaxFail=2, StaleFilterOK=True, WithQuit=True)),
         ("late", dict(MaxExt=3, MaxRb=2, MaxFail=1, StaleFilterOK=True)),
         ("lag", dict(MaxExt=3, MaxRb=2, MaxFail=1, Lag=True, MaxNotCur=1)),
-        ("nowatch", dict(MaxExt=3, MaxRb=2, MaxFail=1, MaxNotCur=1)),
+        ("nowatch", dict(MaxExt=3, MaxRb=3, MaxFail=1, MaxNotCur=1)),
+        ("early", dict(MaxExt=3, MaxRb=3, MaxFail=0, MaxUpd=1, MaxNotCur=1)),
+        ("tipsplit", dict(MaxExt=3, MaxRb=2, MaxFail=1, MaxUpd=0, StaleFilterOK=True)),
         ("retry", dict(MaxExt=4, MaxRb=2, MaxFail=2, MaxUpd=1, StaleFilterOK=True)),
         ("deep", dict(MaxExt=5, MaxRb=4, MaxFail=1, MaxUpd=1, StaleFilterOK=True)),
     ],
@@ -225,7 +238,10 @@ ASSUMPTIONS = [
     "header look-ups by hash succeed exactly for blocks of the current header chain, GetBlock fails for blocks that "
     "left it, GetCFilter may still serve them (cache) - the behaviour of RescanChainSource/ChainService; GetCFilter "
     "never returns the bare headerfs.ErrHashNotFound sentinel (ChainService wraps it)",
-    "a chain event and its notification are one step of the environment (the window between the two belongs to C11/C19)",
+    "a chain event and its notification are one step of the environment, except in the universes marked Split, where "
+    "the stores change first and the notification is handed to the subscription manager in a second step (at most one "
+    "outstanding, as the block manager blocks in that send): a subscription registered in between gets the block in "
+    "its backlog and again live, or a Disconnected for a block it never saw",
     "updates are sent through Rescan.Update into a one-slot channel installed by the driver, so an update sent while the "
     "rescan is between two chain-source calls is found by the catch-up loop's non-blocking drain like a caller blocked "
     "in Update() would be; an update counts as watched once the rescan has received it",
@@ -239,8 +255,8 @@ def label(act):
     op = act.get("op", "?")
     if op == "SendUpd":
         return "SendUpd(+%s,rw%d)" % ("/".join(str(x) for x in act.get("add", [])), act.get("rw", 0))
-    if op == "Ntfn":
-        return "Ntfn(%s%d)" % (act.get("res"), act.get("b", -1))
+    if op in ("Ntfn", "Emit"):
+        return "%s(%s%d)" % (op, act.get("res"), act.get("b", -1))
     if op in ("Extend", "AddFH", "Rollback", "Start"):
         return "%s(%d)" % (op, act.get("b", -1))
     if op in ("Retry", "Quit"):
@@ -248,20 +264,106 @@ def label(act):
     return "%s(%d)=%s" % (op, act.get("b", -1), act.get("res"))
 
 
-def drift(paths_in, observed):
-    """family.drift, except that paths cut by an early retry timer are counted
-    separately (scheduling the driver cannot force, not a model/code mismatch)."""
-    races = [t for t in observed if t.get("race")]
-    rest = [t for t in observed if not t.get("race")]
-    n_steps, n_drift, samples = family.drift(paths_in, rest, label=label)
-    # a raced path must agree with the model up to the race
-    for t in races:
-        t2 = dict(t, steps=[s for s in t["steps"] if not s.get("note")])
-        a, b, c = family.drift(paths_in, [t2], label=label)
-        n_steps += a
-        n_drift += b
-        samples += c
-    return (n_steps, n_drift, samples[:5]), len(races)
+def _drift_one(e, t):
+    """family.drift for one (predicted path, observed trace) pair.  A path cut
+    by an early retry timer (race) must agree with the model up to the cut; the
+    cut itself is scheduling the driver cannot force, not drift.
+    Returns (steps compared, drifted, sample)."""
+    if t.get("error"):
+        return 0, False, None
+    if e.get("init_obs") is not None and t.get("init_obs") != e["init_obs"]:
+        return 0, True, {"trace": t["id"], "step": 0, "what": "initial observables differ",
+                         "model": e["init_obs"], "code": t.get("init_obs")}
+    n = 0
+    for i, s in enumerate(t["steps"]):
+        if s.get("note"):
+            if t.get("race"):
+                break
+            return n, True, {"trace": t["id"], "step": i + 1, "what": s["note"]}
+        if i >= len(e["steps"]):
+            break
+        m = e["steps"][i]
+        n += 1
+        if s["act"] != m["act"] or s["obs"] != m["obs"]:
+            return n, True, {"trace": t["id"], "step": i + 1,
+                             "labels": [label(x["act"]) for x in t["steps"][:i + 1]],
+                             "model_act": m["act"], "code_act": s["act"],
+                             "model_obs": m["obs"], "code_obs": s["obs"]}
+    return n, False, None
+
+
+def _run_driver(binary, test_name, env_extra, out_file, cwd, timeout=3600):
+    """family.run_driver without reading the output into memory."""
+    import subprocess
+    env = core.go_env()
+    env.update({"VERIF_OUT": out_file, "VERIF_SCRATCH": cwd})
+    env.update(env_extra)
+    p = subprocess.run([binary, "-test.run", "^" + test_name + "$", "-test.count=1",
+                        "-test.timeout", "%ds" % timeout], cwd=cwd, env=env,
+                       stdout=subprocess.PIPE, stderr=subprocess.STDOUT, text=True)
+    if p.returncode != 0 or not os.path.exists(out_file):
+        raise core.MachineryError("driver failed rc=%d:\n%s" % (p.returncode, p.stdout[-6000:]))
+
+
+def _process(pf, of, spec_dirs, prop_id, uname, chunk=12000):
+    """Judges the observed traces (TLC, RescanProps) and compares them with the
+    model's predictions, reading both files in step - a thorough scenario has
+    some 90 000 traces of 25 steps, which are never all in memory."""
+    known = core.load_known()
+    verdict = {"violations": [], "known": {}, "n_lines": 0, "wall": 0.0, "raw": 0}
+    dr = [0, 0, []]
+    light, races, callbacks = [], 0, 0
+    filler = {}
+
+    def flush(exp, buf):
+        nonlocal races, callbacks
+        v = family.judge(spec_dirs, "RescanProps", PROPS[prop_id], prop_id, buf, label=label, known=known)
+        full = set(id(x["observed"]) for x in v["violations"])
+        for e, t in zip(exp, buf):
+            a, b, c = _drift_one(e, t)
+            dr[0] += a
+            dr[1] += 1 if b else 0
+            if c and len(dr[2]) < 5:
+                c["trace"] = "%s/%s" % (uname, c["trace"])
+                dr[2].append(c)
+            races += 1 if t.get("race") else 0
+            callbacks += sum(len(st["obs"]["ev"]) for st in t["steps"])
+        for x in v["violations"]:
+            x["trace"] = "%s/%s" % (uname, x["trace"])
+        for t in buf:
+            t["uni"] = uname
+            t["id"] = "%s/%s" % (uname, t["id"])
+            if len(light) < 3 or t.get("error") or id(t) in full:
+                light.append(t)
+            else:
+                light.append({"id": t["id"], "steps": [filler] * len(t["steps"])})
+        verdict["violations"] += v["violations"]
+        verdict["n_lines"] += v["n_lines"]
+        verdict["wall"] += v["wall"]
+        verdict["raw"] += v["raw"]
+        for kid, kv in v["known"].items():
+            if kid in verdict["known"]:
+                verdict["known"][kid]["count"] += kv["count"]
+            else:
+                verdict["known"][kid] = kv
+
+    exp, buf = [], []
+    with open(pf) as fp, open(of) as fo:
+        for lp in fp:
+            lo = fo.readline()
+            if not lo:
+                raise core.MachineryError("driver output of %s ends early" % uname)
+            e, t = json.loads(lp), json.loads(lo)
+            if e["id"] != t["id"]:
+                raise core.MachineryError("driver output of %s out of order" % uname)
+            exp.append(e)
+            buf.append(t)
+            if len(buf) >= chunk:
+                flush(exp, buf)
+                exp, buf = [], []
+        if buf:
+            flush(exp, buf)
+    return light, verdict, tuple(dr), races, callbacks
 
 
 class _Agg:
@@ -348,6 +450,7 @@ def _free(k, uname, runs, steps, maxupd, prop_id, seed, sc, binary):
     v = _judge([SPEC, ud], prop_id, obs)
     consts = dict(UNBOUNDED)
     consts["Lag"] = bool(u["Lag"])
+    consts["SplitNotify"] = bool(u["Split"])
     consts.update(CODE_VERSION)
     rej = trace_check([SPEC, ud], consts, [t for t in obs if not t.get("error")], sd)
     samples = []
@@ -427,6 +530,7 @@ def _scenario(k, uname, over, prop_id, tier, seed, sc, binary, replay):
         consts = dict(BASE)
         consts.update(over)
         consts["Lag"] = bool(u["Lag"])
+        consts["SplitNotify"] = bool(u["Split"])
         consts.update(CODE_VERSION)
         tlc = core.run_tlc([SPEC, ud], "Rescan", consts, workers=1, invariants=["TypeOK"],
                            workdir=os.path.join(sc, "tlc%d" % k), timeout=3000)
@@ -445,25 +549,16 @@ def _scenario(k, uname, over, prop_id, tier, seed, sc, binary, replay):
         shutil.rmtree(os.path.join(sc, "tlc%d" % k), ignore_errors=True)
     sd = os.path.join(sc, "run%d" % k)
     os.makedirs(sd, exist_ok=True)
-    obs, log = family.run_driver(binary, "TestVerifRescanReplay", pf, os.path.join(sc, "obs%d.ndjson" % k), sd,
-                                 env_extra={"VERIF_UNIVERSE": uj})
-    v = _judge([SPEC, ud], prop_id, obs)
-    (a, b, c), nr = drift(pf, obs)
-    # make trace ids unique over scenarios, remember the universe for replays
-    for t in obs:
-        t["uni"] = uname
-        t["id"] = "%s/%s" % (uname, t["id"])
-    for x in v["violations"]:
-        x["trace"] = "%s/%s" % (uname, x["trace"])
-    for x in c:
-        x["trace"] = "%s/%s" % (uname, x["trace"])
+    of = os.path.join(sc, "obs%d.ndjson" % k)
+    _run_driver(binary, "TestVerifRescanReplay", {"VERIF_PATHS": pf, "VERIF_UNIVERSE": uj}, of, sd)
+    obs, v, (a, b, c), nr, callbacks = _process(pf, of, [SPEC, ud], prop_id, uname)
+    os.remove(of)
+    os.remove(pf)
     info = {"universe": uname, "config": consts, "states": tlc.distinct,
             "edges": len(g.edges) if g else 0,
             "model_violating_edges": sum(1 for e in g.edges if e[4]) if g else 0,
             "paths": len(paths), "tlc_wall_s": round(tlc.wall, 1),
-            "callbacks_observed": sum(len(s["obs"]["ev"]) for t in obs for s in t["steps"]),
-            "timer_races": nr}
-    _slim(obs, v["violations"])
+            "callbacks_observed": callbacks, "timer_races": nr}
     return dict(tlc=tlc, g=g, paths=paths, unreach=unreach, obs=obs, v=v, drift=(a, b, c), races=nr, info=info)
 
 
